@@ -7,7 +7,11 @@
                                         linear part, net_port_affine ..., mna_port_affine (through the regenerated stamps,
                                         Gen.C01net.mna_sem), probe_* (hand model of kill/apply_test_*/Isc/impedance/
                                         admittance/transfer), thevenin_net_rel, norton_net_rel, net_ground_indep
+             props/C04ground.v          ground_at_sol, kcl_sum_zero, ground_wire_equiv: model of _add_ground (W x 0 = index -1); for a floating
+                                        netlist the terminal relation is the same whichever node is wired to ground
              props/C04ex.v              impedance_kills_ics_refuted (probe model without IC killing is wrong)
+             theory/TheveninDense.v + props/C04cert.v   cert_determined: a left inverse of the killed system matrix, checked by vm_compute per
+                                        circuit, implies the well-posedness hypothesis of port_affine
              props/C04mna.v             mna_port_affine: the same through the stamps regenerated from lcapy/mnacpts.py (Gen.C01net.mna_sem)
   correspond generated circuits x ports x loads through the REAL probes (tools/impl_thevenin.py); inside Coq (Qc):
              the model netlist reproduces Lcapy's A and Z, a left inverse certifies well-posedness, and for every probe
@@ -357,8 +361,8 @@ CORPUS_NETS = [
 
 
 def gen_cases(rng, tier):
-    n_net = int(os.environ.get('VERIF_NCASES', 80 if tier == 'quick' else 900))
-    n_tree = int(os.environ.get('VERIF_NTREES', 32 if tier == 'quick' else 400))
+    n_net = int(os.environ.get('VERIF_NCASES', 72 if tier == 'quick' else 800))
+    n_tree = int(os.environ.get('VERIF_NTREES', 28 if tier == 'quick' else 300))
     cases = []
     for c in CORPUS_NETS:
         c = dict(c)
@@ -599,26 +603,36 @@ def build_net_items(ci, case, wr, tr, res):
                 add(nm, 'main', sl, 'c_yth true %s' % kl, pm(sl), x_y, v)
                 if x_yf is not None:
                     add(nm, 'icskept', sl, 'c_yth false %s' % kl, pm(sl), x_yf, v)
-        # transfer (p, m) -> port2
-        if case.get('port2') and fr(api.get('H')) is not None:
-            p2, m2 = case['port2']
-            ni = sl['d']['node_index']
-            across = False
-            for e_ in sl['d']['elements']:
-                if e_.get('_owner') in ('V', 'VCVS', 'CCVS', 'AM', 'TF', 'TR') and len(e_['nidx']) >= 2 and \
-                        set(e_['nidx'][:2]) == {sl['pi'], sl['mi']}:
+    # transfer (p, m) -> port2
+    if case.get('port2') and (fr(api.get('H')) is not None or fr(api.get('H_direct')) is not None):
+        p2, m2 = case['port2']
+        ni = sl['d']['node_index']
+        across = False
+        vs_in = vs_out = False
+        a2, b2 = ni.get(p2), ni.get(m2)
+        for e_ in sl['d']['elements']:
+            if len(e_['nidx']) >= 2 and set(e_['nidx'][:2]) == {sl['pi'], sl['mi']}:
+                if e_.get('_owner') in ('V', 'VCVS', 'CCVS', 'AM', 'TF', 'TR'):
                     across = True
-            if p2 in ni and m2 in ni and ni[p2] == ni[m2]:
-                res.count('transfer_skipped_output_nodes_merged')
-            elif p2 in ni and m2 in ni and not across:
-                a2, b2 = ni[p2], ni[m2]
-                info['model']['H'] = pvx(sl, x_y, a2, b2)
-                v = fr(api['H'])
-                add('H', 'main', sl, 'c_tr true %s' % kl, '%s (%d) (%d)' % (pm(sl), a2, b2), x_y, v)
+                if e_.get('_owner') == 'V':
+                    vs_in = True
+            if e_.get('_owner') == 'V' and a2 is not None and b2 is not None and len(e_['nidx']) >= 2 and set(e_['nidx'][:2]) == {a2, b2}:
+                vs_out = True
+        # transfer() tries a ladder-network shortcut on kill() when the netlist has at least 6 elements
+        info['ladder_fp'] = (len(case['netlist']) >= 6) and (vs_in or vs_out)
+        if a2 is not None and b2 is not None and a2 == b2:
+            res.count('transfer_skipped_output_nodes_merged')
+        elif a2 is not None and b2 is not None and not across and x_y is not None:
+            info['model']['H'] = pvx(sl, x_y, a2, b2)
+            for nm in ('H', 'H_direct'):
+                v = fr(api.get(nm))
+                if v is None:
+                    continue
+                add(nm, 'main', sl, 'c_tr true %s' % kl, '%s (%d) (%d)' % (pm(sl), a2, b2), x_y, v)
                 if x_yf is not None:
-                    add('H', 'icskept', sl, 'c_tr false %s' % kl, '%s (%d) (%d)' % (pm(sl), a2, b2), x_yf, v)
-            else:
-                res.count('transfer_skipped_source_across_input')
+                    add(nm, 'icskept', sl, 'c_tr false %s' % kl, '%s (%d) (%d)' % (pm(sl), a2, b2), x_yf, v)
+        else:
+            res.count('transfer_skipped_source_across_input')
     return items, info
 
 
@@ -749,7 +763,7 @@ def oracle(case, wr, info):
     return bad
 
 
-METHOD = {'Z': 'impedance', 'Y': 'admittance', 'thZ': 'thevenin', 'noY': 'norton', 'H': 'transfer',
+METHOD = {'Z': 'impedance', 'Y': 'admittance', 'thZ': 'thevenin', 'noY': 'norton', 'H': 'transfer', 'H_direct': 'transfer',
           'Voc': 'Voc', 'Isc': 'Isc', 'thVoc': 'thevenin', 'noIsc': 'norton'}
 ORACLE_PROBES = {'ident_voc': ['Voc', 'Isc', 'Z'], 'ident_zy': ['Z', 'Y'], 'th_voc': ['thVoc', 'Voc'], 'th_z': ['thZ', 'Z'],
                  'no_isc': ['noIsc', 'Isc'], 'no_y': ['noY', 'Y'], 'load_thev': ['thVoc', 'thZ'], 'load_nort': ['noIsc', 'noY'],
@@ -759,7 +773,7 @@ ORACLE_PROBES = {'ident_voc': ['Voc', 'Isc', 'Z'], 'ident_zy': ['Z', 'Y'], 'th_v
 
 def classify(probe, failed, passed_diag, has_ic):
     """key for a correspondence difference of one probe in one case"""
-    if has_ic and probe in ('Z', 'Y', 'thZ', 'noY', 'H') and (probe, 'icskept') in passed_diag:
+    if has_ic and probe in ('Z', 'Y', 'thZ', 'noY', 'H', 'H_direct') and (probe, 'icskept') in passed_diag:
         return 'NetlistOpsMixin.%s:ics-kept' % METHOD[probe]
     return 'correspondence:%s' % probe
 
@@ -767,7 +781,7 @@ def classify(probe, failed, passed_diag, has_ic):
 def run(tier='quick', replay=None):
     res = core.Result(PID, tier)
     rng = random.Random(core.seed() * 104729 + 4)
-    core.ensure_theory(['FieldSec', 'Circuit', 'MNA', 'Thevenin', 'TheveninOnePort'])
+    core.ensure_theory(['FieldSec', 'Circuit', 'MNA', 'Thevenin', 'TheveninOnePort', 'TheveninDense'])
     w = core.Work(PID)
     violations = []
     try:
@@ -778,7 +792,7 @@ def run(tier='quick', replay=None):
                        'harness: exact rational witnesses / inverse certificate (checked in Coq), textbook load lines, netlist text of generated cases',
                        'oracles (modelled, contract checked per case): sympy matrix solve, node merging/indexing, Superposition/Laplace bookkeeping']
         res.assumptions = ['characteristic-0 field with decidable equality',
-                           'well-posedness (the homogeneous system forces the port voltage to 0) is a hypothesis of port_affine; it is certified per generated case by a left inverse checked in Coq',
+                           'well-posedness (the homogeneous system forces the port voltage to 0) is a hypothesis of port_affine; for every generated circuit it is discharged by cert_determined from a left-inverse certificate evaluated in Coq (item inv)',
                            'load_invariance is stated for an arbitrary load RELATION at the port; the composition with a load netlist is exercised by the oracle, not proved',
                            'a killed voltage source is modelled as a 0 V source (Lcapy replaces it by a wire and merges the nodes)']
         cases = gen_cases(rng, tier)
@@ -819,7 +833,7 @@ def run(tier='quick', replay=None):
                 res.failed_obl.append(('StampsGen', 'StampsGen.v', out[-800:]))
                 res.obligations += 1
             else:
-                for f in ('C01model.v', 'C01.v', 'C01net.v', 'C04model.v', 'C04.v', 'C04ex.v', 'C04mna.v'):
+                for f in ('C01model.v', 'C01.v', 'C01net.v', 'C04model.v', 'C04.v', 'C04ex.v', 'C04ground.v', 'C04mna.v', 'C04cert.v'):
                     texts[f] = open(os.path.join(core.VERIF, 'coq', 'props', f)).read()
                     w.write(f, texts[f])
                 bad = core.gate_text('generated+props', '\n'.join(texts.values()))
@@ -840,14 +854,16 @@ def run(tier='quick', replay=None):
                         return
                     first = ['C01.v'] + (['C04.v'] if model_ok else [])
                     o.update(core.coqc_many(w.dir, first, timeout=1500))
-                    second = (['C01net.v'] if o['C01.v'][0] else []) + (['C04ex.v'] if o.get('C04.v', (False,))[0] else [])
+                    second = (['C01net.v'] if o['C01.v'][0] else []) + (['C04ex.v', 'C04ground.v'] if o.get('C04.v', (False,))[0] else [])
                     if second:
                         o.update(core.coqc_many(w.dir, second, timeout=900))
                     if o.get('C01net.v', (False,))[0] and o.get('C04.v', (False,))[0]:
                         o.update(core.coqc_many(w.dir, ['C04mna.v'], timeout=600))
+                        if o['C04mna.v'][0]:
+                            o.update(core.coqc_many(w.dir, ['C04cert.v'], timeout=600))
                 th_rest = threading.Thread(target=prove_rest)
                 th_rest.start()
-        for f in ('Thevenin.v', 'TheveninOnePort.v'):
+        for f in ('Thevenin.v', 'TheveninOnePort.v', 'TheveninDense.v'):
             names = core.obligations_in(open(os.path.join(core.COQ_THEORY, f)).read())
             res.obligations += len(names)
             res.discharged += len(names)
@@ -928,7 +944,7 @@ def run(tier='quick', replay=None):
         if th_rest is not None:
             th_rest.join()
             allr.update(rest_box)
-            for f in ('C01.v', 'C01net.v', 'C04.v', 'C04ex.v', 'C04mna.v'):
+            for f in ('C01.v', 'C01net.v', 'C04.v', 'C04ex.v', 'C04ground.v', 'C04mna.v', 'C04cert.v'):
                 if f not in allr:
                     res.failed_obl.append((f[:-2], f, 'not checked: a prerequisite file failed'))
                     res.obligations += 1
@@ -968,6 +984,12 @@ def run(tier='quick', replay=None):
                     key = 'oracle:' + nm
                     if has_ic and rel and all(keys[pb].endswith(':ics-kept') for pb in rel):
                         key = keys[rel[-1]]
+                    if nm == 'transfer_route' and info.get('ladder_fp') and 'H_direct' not in keys:
+                        # the two public routes disagree, the documented one agrees with the model (or is not modelled: source
+                        # across the input), >= 6 elements and an independent V source across the input or output port
+                        key = 'NetlistOpsMixin.transfer:ladder-shortcut'
+                        if 'H' in keys:
+                            keys['H'] = key
                     keys['oracle:' + nm] = key
             else:
                 # one-port trees: ParSer.Voc / ParSer.Isc return 0 unless an INDEPENDENT source is below (6-F9)
